@@ -32,6 +32,7 @@ func runC18(c *eng.Ctx, tier string) {
 	includeOnly(c, "R-C18-5", func(sc *eng.Ctx) { runC02(sc, "quick") }, "R-C02-2", "R-C02-3")
 	includeOnly(c, "R-C18-5", func(sc *eng.Ctx) { runC04(sc, "quick") }, "R-C04-3")
 	includeOnly(c, "R-C18-5", func(sc *eng.Ctx) { c13Wire(sc) }, "R-C13-4")
+	includeOnly(c, "R-C18-5", func(sc *eng.Ctx) { runC20(sc, "quick") }, "R-C20-1")
 	// R-C18-1
 	for _, row := range []struct{ name, want string }{
 		{"PutRequest", `{"Name":string "Value":base64}`},
